@@ -58,6 +58,7 @@ struct Gen {
 	PatchDoc ref;
 	bool f_escaped = false, f_array_end = false, f_dependent = false, f_fail = false;
 	std::vector<std::string> written; // locations written by earlier ops
+	bool f_locality = false;
 	Gen(Choices &cc, Ctx &cx) : c(cc), ctx(cx) {}
 
 	std::string existing_path()
@@ -69,8 +70,20 @@ struct Gen {
 			return paths[1 + c.pickn(paths.size() - 1)];
 		return paths[c.pickn(paths.size())];
 	}
+	bool have_last = false, stale_possible = false;
+	std::string last_container; // where the previous add went: consecutive operations tend to work in one place
 	std::string container_path()
 	{
+		if (have_last && c.coin(45))
+		{
+			PtrErr e;
+			Val *v = ptr_eval(ref.v, last_container, e);
+			if (v && (v->k == Val::Arr || v->k == Val::Obj))
+			{
+				f_locality = true;
+				return last_container;
+			}
+		}
 		std::vector<std::string> paths, conts;
 		ptr_all_paths(ref.v, "", paths);
 		for (auto &p : paths)
@@ -154,7 +167,37 @@ struct Gen {
 		switch (c.pick({25, 15, 15, 15, 15, 15}))
 		{
 		case 0: {
-			std::string p = add_target(valid);
+			std::string p;
+			if (valid && have_last && !last_container.empty() && c.coin(20))
+			{
+				// overwrite an ancestor of the place the previous add went to (or the whole document)
+				std::vector<size_t> cuts{0};
+				for (size_t i = 1; i < last_container.size(); i++)
+					if (last_container[i] == '/')
+						cuts.push_back(i);
+				p = last_container.substr(0, cuts[c.pickn(cuts.size())]);
+				if (c.coin(50))
+					p = last_container;
+				f_locality = true;
+				stale_possible = true;
+			}
+			else if (valid && have_last && stale_possible && c.coin(60))
+			{
+				// once more into the place of the add before last, whatever has happened to it since (the reference
+				// evaluation decides whether that still exists)
+				p = last_container + "/" + ptr_escape(KEYS[c.pickn(NKEYS)]);
+				f_locality = true;
+			}
+			else
+			{
+				p = add_target(valid);
+				size_t sl = p.rfind('/');
+				if (valid && sl != std::string::npos)
+				{
+					last_container = p.substr(0, sl);
+					have_last = true;
+				}
+			}
 			Val o = mkop("add", p);
 			Val v = small_value(c);
 			if (p.empty() && v.k == Val::Null)
@@ -596,6 +639,8 @@ void run_case(Choices &c, Ctx &ctx)
 		ctx.label("escaped_token");
 	if (g.f_array_end)
 		ctx.label("array_end");
+	if (g.f_locality)
+		ctx.label("consecutive_ops_in_one_place");
 	if (g.f_dependent)
 		ctx.label("later_op_through_written_location");
 	if (g.f_fail)
